@@ -513,7 +513,8 @@ fn lane_trees(ctx: &mut Ctx) {
 /// C03 on testnet/regtest: chains long enough to reach the adaptive depth bound, with an anchor so
 /// heavy that the difficulty rule cannot fire, and a competing branch at various distances.
 fn lane_deep(ctx: &mut Ctx) {
-    let max_cases = if ctx.tier == Tier::Quick { 16 } else { 100_000 };
+    // a single deep case takes 1-2 s: the quick tier runs a few per worker
+    let max_cases = if ctx.tier == Tier::Quick { 64 } else { 100_000 };
     for k in ctx.cases("deep", max_cases) {
         if !ctx.time_left() {
             break;
@@ -522,7 +523,13 @@ fn lane_deep(ctx: &mut Ctx) {
         let mut rng = Rng::derive(&[ctx.seed, fp_str("deep"), k]);
         let quick = ctx.tier == Tier::Quick;
         let (net, path) = if k % 2 == 0 { (Network::Regtest, Path::Insert) } else { (Network::Testnet, Path::Push) };
-        let threshold: u32 = *rng.pick(&[1u32, 2, 6, 30, 144, 400, 499, 500, 700]);
+        // in the quick tier mostly thresholds whose adaptive depth bound is reached within the
+        // case's block limit (bound = 500 - blocks x (500 - threshold) / 1500)
+        let threshold: u32 = if quick {
+            *rng.pick(&[1u32, 2, 6, 30, 144, 6, 30, 144, 400, 500])
+        } else {
+            *rng.pick(&[1u32, 2, 6, 30, 144, 400, 499, 500, 700])
+        };
         let cfg = HistCfg {
             net,
             path,
